@@ -21,6 +21,9 @@ pub enum Act {
     Put { k: usize, v: usize },
     /// RecordStore::remove of a held key with nothing of it in flight (as the driver does for a failed write or a clean-up)
     Remove { k: usize },
+    /// `RecordStore::put`, the entry point of a record arriving over kad: it only forwards the record for validation.
+    /// Nothing has been accepted yet, so nothing may be evicted, listed or counted
+    KadPut { k: usize },
     /// responsible range set strictly between the distances of rank `below` and `below+1` (0 = nearer than every key)
     SetRange { gap: usize },
     Payment,
@@ -237,6 +240,21 @@ impl Sys {
                     fails.push(Fail::new("removal-exact", self.trigger(), format!("removing k{k} changed the held set {before:?} -> {after:?}")));
                 }
             }
+            Act::KadPut { k } => {
+                // everything a reader or the next put can observe: index, distance index, farthest, cache, reads, files, metrics
+                // (not the task list: forwarding the record for validation is a task)
+                let observable = |s: &Sys| -> String {
+                    let c = String::from_utf8_lossy(&s.rig().canon(&s.uni.keys)).to_string();
+                    c.split(";tasks=").next().unwrap_or("").to_string()
+                };
+                let before = (self.held(), observable(self));
+                let key = self.uni.keys[*k].clone();
+                let _ = self.rigm().kad_put(&key, &[&[0x91u8, 1][..], b"unvalidated inbound"].concat());
+                let after = (self.held(), observable(self));
+                if after != before {
+                    fails.push(Fail::new("eviction-only-for-new-records", "unvalidated-inbound-record", format!("an inbound record for k{k} that has not been validated changed the store: held {:?} -> {:?}", before.0, after.0)));
+                }
+            }
             Act::SetRange { gap } => {
                 let r = self.uni.ranges[*gap];
                 self.rigm().store.verif_set_responsible_distance_range(r);
@@ -317,6 +335,8 @@ impl System for Sys {
                 v.push(Act::Put { k, v: 0 });
             }
             v.push(Act::Put { k: 0, v: 1 });
+            // an unvalidated inbound record for the nearest key (it would displace the farthest record if it were accepted)
+            v.push(Act::KadPut { k: 0 });
             if self.unacked.iter().all(|u| *u == 0) && self.rig().pending_tasks().iter().all(|(t, _)| t == "metrics") {
                 for k in self.held() {
                     v.push(Act::Remove { k });
